@@ -20,7 +20,8 @@ def TokStep (s : State) (more : Bool) (s' : State) : Prop :=
   s.pos ≤ s'.pos ∧ s'.pos ≤ s.input.length ∧
   (∀ j, j ≠ s.cur → s'.tv[j]? = s.tv[j]?) ∧
   (more = true → s.pos < s'.pos ∧ ∃ t, s'.tv[s.cur]? = some t ∧ t.cat ≠ 0 ∧ TokAt s.input s.pos s'.pos t) ∧
-  (more = false → s'.pos = s.input.length ∨ s.input = [])
+  (more = false → s'.pos = s.input.length ∨ s.input = []) ∧
+  (∀ t, s'.tv[s.cur]? = some t → (TokInv t ∧ CatOK t) ∨ s.tv[s.cur]? = some t)
 
 theorem tokLoop_ok (fuel : Nat) : ∀ (s : State), s.pos ≤ s.input.length → s.cur < s.tv.length →
     s.input.length - s.pos < fuel → ∃ more s', tokLoop s fuel = .ok (more, s') ∧ TokStep s more s' := by
@@ -47,26 +48,38 @@ theorem tokLoop_ok (fuel : Nat) : ∀ (s : State), s.pos ≤ s.input.length → 
         rw [Nat.add_comm]
       split
       · rename_i hcat
-        refine ⟨true, _, rfl, rfl, rfl, rfl, by simp, by simp, by simp; omega, ?_, ?_, by simp⟩
+        refine ⟨true, _, rfl, rfl, rfl, rfl, by simp, by simp, by simp; omega, ?_, ?_, by simp, ?_⟩
         · intro j hj
           simp [List.getElem?_set, Ne.symm hj]
         · intro _
           refine ⟨by simp; omega, { r.tok with pos := r.tok.pos + s.pos }, by simp [List.getElem?_set, hc], by simpa using hcat, ?_⟩
           exact ⟨⟨v1, v2⟩, by simp, by simp; omega, hfaith, c1⟩
-      · obtain ⟨more, s', hs', q1, q2, q3, q4, q5, q6, q7, q8, q9⟩ := ih
+        · intro t ht
+          left
+          simp [List.getElem?_set, hc] at ht
+          rw [← ht]
+          exact ⟨⟨v1, v2⟩, c1⟩
+      · obtain ⟨more, s', hs', q1, q2, q3, q4, q5, q6, q7, q8, q9, q10⟩ := ih
           { s with tv := s.tv.set s.cur { r.tok with pos := r.tok.pos + s.pos }, pos := s.pos + r.next,
                    ddx := s.ddx + r.ddx, hash := s.hash + r.hash }
           (by simp; omega) (by simp; exact hc) (by simp; omega)
-        simp at q1 q2 q3 q4 q5 q6 q7 q8 q9
-        refine ⟨more, s', hs', q1, q2, q3, q4, by omega, q6, ?_, ?_, q9⟩
+        simp at q1 q2 q3 q4 q5 q6 q7 q8 q9 q10
+        refine ⟨more, s', hs', q1, q2, q3, q4, by omega, q6, ?_, ?_, q9, ?_⟩
         · intro j hj
           rw [q7 j hj]
           simp [List.getElem?_set, Ne.symm hj]
         · intro hm
           obtain ⟨w1, t, w2, w3, ⟨w4, w5, w6, w7, w8⟩⟩ := q8 hm
           exact ⟨by omega, t, w2, w3, ⟨w4, by omega, w6, w7, w8⟩⟩
+        · intro t ht
+          rcases q10 t ht with h | h
+          · exact Or.inl h
+          · left
+            simp [List.getElem?_set, hc] at h
+            rw [← h]
+            exact ⟨⟨v1, v2⟩, c1⟩
     · simp only [hlt, ↓reduceIte, pure, Except.pure]
-      refine ⟨false, s, rfl, rfl, rfl, rfl, rfl, Nat.le_refl _, hp, fun _ _ => rfl, by simp, ?_⟩
+      refine ⟨false, s, rfl, rfl, rfl, rfl, rfl, Nat.le_refl _, hp, fun _ _ => rfl, by simp, ?_, fun t ht => Or.inr ht⟩
       intro _; left; omega
 
 theorem flag2Delim_ne (flags : Nat) (h : (hasFlag flags flagQuoteSingle || hasFlag flags flagQuoteDouble) = true) :
@@ -89,7 +102,7 @@ theorem tokenize_ok (s : State) (hp : s.pos ≤ s.input.length) (hc : s.cur < s.
     have : s.input = [] := by
       have : s.input.length = 0 := by simpa using he
       exact List.eq_nil_of_length_eq_zero this
-    exact ⟨false, s, rfl, rfl, rfl, rfl, rfl, Nat.le_refl _, hp, fun _ _ => rfl, by simp, fun _ => Or.inr this⟩
+    exact ⟨false, s, rfl, rfl, rfl, rfl, rfl, Nat.le_refl _, hp, fun _ _ => rfl, by simp, fun _ => Or.inr this, fun t ht => Or.inr ht⟩
   · have hlen : 1 ≤ s.input.length := by
       have : ¬ s.input.length = 0 := by simpa using he
       omega
@@ -104,20 +117,32 @@ theorem tokenize_ok (s : State) (hp : s.pos ≤ s.input.length) (hc : s.cur < s.
       simp only [hr]
       have hc' : s.cur < (s.tv.set s.cur {}).length := by simp; exact hc
       simp only [tvSet_ok { s with tv := s.tv.set s.cur {} } s.cur r.tok hc']
-      refine ⟨true, _, rfl, rfl, rfl, rfl, by simp, by simp; omega, by simp; exact n2, ?_, ?_, by simp⟩
+      refine ⟨true, _, rfl, rfl, rfl, rfl, by simp, by simp; omega, by simp; exact n2, ?_, ?_, by simp, ?_⟩
       · intro j hj
         simp [List.getElem?_set, Ne.symm hj]
       · intro _
         refine ⟨by simp; omega, r.tok, by simp [List.getElem?_set, hc], by rw [hcat]; decide, ?_⟩
         exact ⟨⟨v1, v2⟩, by omega, by simpa using b1, f1, c1⟩
+      · intro t ht
+        left
+        simp [List.getElem?_set, hc] at ht
+        rw [← ht]
+        exact ⟨⟨v1, v2⟩, c1⟩
     · simp only [hq, Bool.false_eq_true, ↓reduceIte]
-      obtain ⟨more, s', hs', q1, q2, q3, q4, q5, q6, q7, q8, q9⟩ := tokLoop_ok (s.input.length + 1)
+      obtain ⟨more, s', hs', q1, q2, q3, q4, q5, q6, q7, q8, q9, q10⟩ := tokLoop_ok (s.input.length + 1)
         { s with tv := s.tv.set s.cur {} } hp (by simp; exact hc) (by simp; omega)
-      simp at q1 q2 q3 q4 q5 q6 q7 q8 q9
-      refine ⟨more, s', hs', q1, q2, q3, q4, q5, q6, ?_, q8, q9⟩
-      intro j hj
-      rw [q7 j hj]
-      simp [List.getElem?_set, Ne.symm hj]
+      simp at q1 q2 q3 q4 q5 q6 q7 q8 q9 q10
+      refine ⟨more, s', hs', q1, q2, q3, q4, q5, q6, ?_, q8, q9, ?_⟩
+      · intro j hj
+        rw [q7 j hj]
+        simp [List.getElem?_set, Ne.symm hj]
+      · intro t ht
+        rcases q10 t ht with h | h
+        · exact Or.inl h
+        · left
+          simp [List.getElem?_set, hc] at h
+          rw [← h]
+          exact ⟨⟨rfl, by simp⟩, ⟨Or.inl rfl, (fun h => absurd h (by decide)), (fun h => absurd h (by decide))⟩⟩
 
 end LibInj.Sqli
 
@@ -144,7 +169,7 @@ theorem rawLoop_ok (fuel : Nat) : ∀ (s : State), s.pos ≤ s.input.length → 
   | succ fuel ih =>
     intro s hp hc hf
     unfold rawLoop
-    obtain ⟨more, s', hs', q1, q2, q3, q4, q5, q6, q7, q8, q9⟩ := tokenize_ok s hp hc
+    obtain ⟨more, s', hs', q1, q2, q3, q4, q5, q6, q7, q8, q9, _⟩ := tokenize_ok s hp hc
     simp only [hs', bind, Except.bind, pure, Except.pure]
     cases more with
     | false =>
